@@ -32,6 +32,15 @@ def _work(item):
                     viols.append(Violation(prop=p, key=f'serial:{key}', what=f'[real SerialRunner] {msg} | cfg={cfg.brief()}',
                                            replay={'engine': 'serial', 'cfg': cfg.to_json(), 'prop': p, 'clause': key},
                                            size=cfg.spec.n * 100))
+            if not viols and cfg.spec.n > 1:
+                # the same configuration from a non-initial state (an earlier aborted run in this process)
+                obs2 = run_once_serial(cfg, prelude=True)
+                for p in props:
+                    for key, msg in e2.ORACLES[p](obs2):
+                        viols.append(Violation(prop=p, key=f'serial:after-earlier-run:{key}',
+                                               what=f'[real SerialRunner, after an earlier aborted run_tasks call in the same process] {msg} | cfg={cfg.brief()}',
+                                               replay={'engine': 'serial', 'cfg': cfg.to_json(), 'prop': p, 'clause': key, 'prelude': True},
+                                               size=cfg.spec.n * 100 + 50))
             rej = None
             if not viols:
                 rej = conformance_trace(obs)
@@ -138,7 +147,7 @@ def replay(payload: dict) -> int:
     silence_labtech()
     if payload.get('engine') == 'serial':
         cfg = e2.Config.from_json(payload['cfg'])
-        obs = run_once_serial(cfg)
+        obs = run_once_serial(cfg, prelude=bool(payload.get('prelude')))
         found = e2.ORACLES[payload['prop']](obs)
         print('config:', cfg.brief())
         for ev in obs.events:
